@@ -76,6 +76,7 @@ type scen struct {
 	Env     int            `json:"env,omitempty"`    // kind "hist": 1 = skyway environment, 2 = tokenfactory / paloma environment
 	Hist    []scen         `json:"hist,omitempty"`   // kind "hist": an object history, every step delivered like a single case
 	Depth   int            `json:"depth,omitempty"`  // kind "nest": levels of authz.MsgExec around the message Tx[0]
+	Fees    int            `json:"fees,omitempty"`   // UpsertRelayerFee: 0 = one fee, 1 = an EMPTY fee list, 2 = the same chain twice
 	Valset  uint64         `json:"valset_id,omitempty"` // SetPublicAccessData: the valset id the data is published for (0 = 1)
 	Multi   []int          `json:"multi,omitempty"`  // AddExternalChainInfoForValidator: several accounts for the SAME chain, in order: whose registered address each one is (validator index; -1, -4, -5: fresh ones)
 }
@@ -423,6 +424,12 @@ func (e *env) build(t *testing.T, s scen) (*built, error) {
 		}
 		m := &treasurytypes.MsgUpsertRelayerFee{Metadata: md, FeeSetting: &treasurytypes.RelayerFeeSetting{ValAddress: va,
 			Fees: []treasurytypes.RelayerFeeSetting_FeeSetting{{ChainReferenceId: chain, Multiplicator: sdkmath.LegacyMustNewDecFromStr("7.25")}}}}
+		switch s.Fees {
+		case 1:
+			m.FeeSetting.Fees = nil
+		case 2:
+			m.FeeSetting.Fees = append(m.FeeSetting.Fees, treasurytypes.RelayerFeeSetting_FeeSetting{ChainReferenceId: chain, Multiplicator: sdkmath.LegacyMustNewDecFromStr("3.5")})
+		}
 		b.msg, b.biz = m, v >= 0 && v < nActors
 		b.fields = []string{"FeeSetting.ValAddress"}
 		b.run = func(ctx sdk.Context) error { _, err := e.treasury.UpsertRelayerFee(ctx, m); return err }
@@ -1047,6 +1054,11 @@ func genScen(r *rand.Rand, kind string, hostile bool) scen {
 		}
 	case "treasury.MsgUpsertRelayerFee":
 		named("FeeSetting.ValAddress", 45)
+		s.Fees = r.Intn(3) // one fee / an empty list / the same chain twice
+		if s.Fees == 1 && r.Intn(2) == 0 {
+			// an empty list naming an account that has NO stored setting yet (validators have one here)
+			s.Named["FeeSetting.ValAddress"] = idxUser0 + r.Intn(3)
+		}
 	case "consensus.MsgAddMessagesSignatures", "consensus.MsgAddMessageGasEstimates", "consensus.MsgAddEvidence",
 		"consensus.MsgSetPublicAccessData", "consensus.MsgSetErrorData":
 		// mostly validators; the message: the first or second waiting one (ids resolved against the
